@@ -1,11 +1,16 @@
 /-
-Schema 2.x crate contents refine Spec.Members: `MemInv` (entities refer to live
-playlists and live tracks, no (list, track) pair twice, track ids a key within the
-counter) is preserved by every crate / track API operation, and the Spec judge
-driven by the Model's answers accepts every step and tracks `absM`.
+Schema 2.x crate contents refine Spec.Members.
+
+`absM d`: live crates = Playlist ids, live tracks, pairs = (listId, trackId) of the PlaylistEntity rows of the
+library's OWN database, in row order.  Entries of other databases (uuid tag ≠ 0) may sit in any list — they are
+nobody's membership here, and no operation of the crate API may confuse them with the library's tracks.
+`MemInv`: every own entry refers to a live playlist and a live track; track ids are a key within the counter
+(no (list, database, track) triple twice: `ChInv.pairs`).
+`MStep`: the Spec.Members judge, driven by the Model's answer and the Spec forest, accepts the step and tracks
+`absM`; `MemInv` is kept.  Histories: `memOp` (the crate / track API interleaved with table-level additions of
+foreign entries).
 -/
 import Proofs.V2Rep
-import Proofs.V2ForestRun
 
 set_option linter.dupNamespace false
 set_option linter.unusedSimpArgs false
@@ -14,175 +19,82 @@ namespace EngineModel.Db.V2
 
 open EngineModel.Db.Chain EngineModel.Spec EngineModel.ListAux
 
-/-! ### properties of `cores` of the entity table that survive deletions -/
-
-/-- ids are a key, and no (list, track) pair occurs twice. -/
-structure PairsOk (cs : List (Int × Int × Ent)) : Prop where
-  ids_nodup : (cs.map (·.1)).Nodup
-  pair_unique : ∀ c ∈ cs, ∀ c' ∈ cs, c.2.1 = c'.2.1 → c.2.2.track = c'.2.2.track → c = c'
-
-theorem PairsOk.filter {cs : List (Int × Int × Ent)} (h : PairsOk cs) (q : Int × Int × Ent → Bool) : PairsOk (cs.filter q) :=
-  ⟨List.Nodup.sublist (List.Sublist.map _ List.filter_sublist) h.ids_nodup,
-   fun c hc c' hc' => h.pair_unique c (List.mem_filter.mp hc).1 c' (List.mem_filter.mp hc').1⟩
-
-theorem core_eq_of_id {cs : List (Int × Int × Ent)} (hn : (cs.map (·.1)).Nodup) {c c' : Int × Int × Ent}
-    (hc : c ∈ cs) (hc' : c' ∈ cs) (h : c.1 = c'.1) : c = c' := by
-  induction cs with
-  | nil => simp at hc
-  | cons a l ih =>
-    simp only [List.map_cons, List.nodup_cons, List.mem_map, not_exists, not_and] at hn
-    rcases List.mem_cons.mp hc with h1 | h1 <;> rcases List.mem_cons.mp hc' with h2 | h2
-    · rw [h1, h2]
-    · subst h1; exact absurd h.symm (hn.1 c' h2)
-    · subst h2; exact absurd h (hn.1 c h1)
-    · exact ih hn.2 h1 h2
-
-/-- The last row of list `l` with track `t` (playlist_entity_table::get), read off `cores`. -/
-theorem lookup_core {pe : Table Ent} {l t : Int} {e : Row Ent}
-    (h : (pe.filter (fun r => r.key == l && r.val.track == t)).getLast? = some e) : core e ∈ cores pe ∧ e.key = l ∧ e.val.track = t := by
-  have hm := List.mem_of_getLast? h
-  obtain ⟨h1, h2⟩ := List.mem_filter.mp hm
-  simp only [Bool.and_eq_true, beq_iff_eq] at h2
-  exact ⟨mem_cores.mpr ⟨e, h1, rfl⟩, h2.1, h2.2⟩
-
-theorem lookup_none {pe : Table Ent} {l t : Int}
-    (h : (pe.filter (fun r => r.key == l && r.val.track == t)).getLast? = none) : ∀ c ∈ cores pe, ¬ (c.2.1 = l ∧ c.2.2.track = t) := by
-  intro c hc hh
-  obtain ⟨r, hr, rfl⟩ := mem_cores.mp hc
-  have := List.getLast?_eq_none_iff.mp h
-  rw [List.filter_eq_nil_iff] at this
-  exact this r hr (by simpa [core] using hh)
-
-/-- Deleting the entity found for (l, t) removes exactly the rows of that pair. -/
-theorem cores_delete_pair {pe : Table Ent} (hp : PairsOk (cores pe)) {l t : Int} {e : Row Ent}
-    (h : (pe.filter (fun r => r.key == l && r.val.track == t)).getLast? = some e) :
-    cores (deleteKeyed fires pe l e.id) = (cores pe).filter (fun c => !(c.2.1 == l && c.2.2.track == t)) := by
-  obtain ⟨hce, hel, het⟩ := lookup_core h
-  rw [cores_deleteKeyed]
-  · apply List.filter_congr
-    intro c hc
-    by_cases hid : c.1 = e.id
-    · have : c = core e := core_eq_of_id hp.ids_nodup hc hce hid
-      subst this
-      simp [core, hel, het]
-    · have : ¬ (c.2.1 = l ∧ c.2.2.track = t) := by
-        intro hh
-        have := hp.pair_unique c hc (core e) hce (by simp [core, hh.1, hel]) (by simp [core, hh.2, het])
-        exact hid (by rw [this]; rfl)
-      have e1 : (c.1 != e.id) = true := by simpa using hid
-      by_cases h1 : c.2.1 = l
-      · have h2 : c.2.2.track ≠ t := fun e' => this ⟨h1, e'⟩
-        have e2 : (c.2.1 == l) = true := by simpa using h1
-        have e3 : (c.2.2.track == t) = false := by simpa using h2
-        rw [e1, e2, e3]; rfl
-      · have e2 : (c.2.1 == l) = false := by simpa using h1
-        rw [e1, e2]; rfl
-  · intro r hr hid
-    have : core r = core e := core_eq_of_id hp.ids_nodup (mem_cores.mpr ⟨r, hr, rfl⟩) hce hid
-    have : r.key = e.key := congrArg (·.2.1) this
-    rw [this, hel]
-
-theorem filter_pair_none {cs : List (Int × Int × Ent)} {l t : Int} (h : ∀ c ∈ cs, ¬ (c.2.1 = l ∧ c.2.2.track = t)) :
-    cs.filter (fun c => !(c.2.1 == l && c.2.2.track == t)) = cs := by
-  apply List.filter_eq_self.mpr
-  intro c hc
-  have := h c hc
-  by_cases h1 : c.2.1 = l
-  · have h2 : c.2.2.track ≠ t := fun e' => this ⟨h1, e'⟩
-    simp [h1, h2]
-  · simp [h1]
-
-/-- database::remove_track's loop: the rows (l, tv) with l among the visited lists go. -/
-theorem cores_foldl_removeTrack (tv : Int) (L : List Int) (pe : Table Ent) (hp : PairsOk (cores pe)) :
-    cores (L.foldl (fun (pe : Table Ent) (l : Int) =>
-      match (pe.filter (fun r => r.key == l && r.val.track == tv)).getLast? with
-      | some e => deleteKeyed fires pe l e.id
-      | none => pe) pe) = (cores pe).filter (fun c => !(L.contains c.2.1 && c.2.2.track == tv)) := by
-  induction L generalizing pe with
-  | nil => simp only [List.foldl_nil, List.contains_nil, Bool.false_and, Bool.not_false]
-           exact (List.filter_eq_self.mpr (fun _ _ => rfl)).symm
-  | cons a L ih =>
-    simp only [List.foldl_cons]
-    have hstep : ∀ pe1 : Table Ent, cores pe1 = (cores pe).filter (fun c => !(c.2.1 == a && c.2.2.track == tv)) →
-        cores (L.foldl (fun (pe : Table Ent) (l : Int) =>
-          match (pe.filter (fun r => r.key == l && r.val.track == tv)).getLast? with
-          | some e => deleteKeyed fires pe l e.id
-          | none => pe) pe1) = (cores pe).filter (fun c => !((a :: L).contains c.2.1 && c.2.2.track == tv)) := by
-      intro pe1 h1
-      rw [ih pe1 (h1 ▸ hp.filter _), h1, List.filter_filter]
-      apply List.filter_congr
-      intro c _
-      by_cases hca : c.2.1 = a
-      · by_cases ht : c.2.2.track = tv <;> simp [hca, ht, List.contains_cons]
-      · have : (c.2.1 == a) = false := by simpa using hca
-        rw [contains_cons_ne hca, this]
-        simp
-    cases hl : (pe.filter (fun r => r.key == a && r.val.track == tv)).getLast? with
-    | none =>
-      simp only
-      exact hstep pe (filter_pair_none (lookup_none hl)).symm
-    | some e =>
-      simp only
-      exact hstep _ (cores_delete_pair hp hl)
-
-/-! ### the membership invariant -/
-
 structure MemInv (d : Db) : Prop where
-  pairs : PairsOk (cores d.pe)
-  live : ∀ c ∈ cores d.pe, c.2.1 ∈ ids d.pl ∧ c.2.2.track ∈ d.tracks
+  live : ∀ c ∈ cores d.pe, c.2.2.uuid = 0 → c.2.1 ∈ ids d.pl ∧ c.2.2.track ∈ d.tracks
   tracks_nodup : d.tracks.Nodup
   tracks_seq : ∀ t ∈ d.tracks, 0 < t ∧ t ≤ d.trSeq
   trSeq0 : 0 ≤ d.trSeq
-  /-- through the crate API every entry carries the library's own database uuid -/
-  own : ∀ c ∈ cores d.pe, c.2.2.uuid = 0
 
 theorem memInv_empty : MemInv Db.empty := by
-  refine ⟨⟨?_, ?_⟩, ?_, ?_, ?_, ?_, ?_⟩ <;> simp [Db.empty, cores]
+  refine ⟨?_, ?_, ?_, ?_⟩ <;> simp [Db.empty, cores]
 
-theorem absM_pairs (d : Db) : (absM d).pairs = (cores d.pe).map pairOf := rfl
+theorem absM_pairs (d : Db) : (absM d).pairs = ((cores d.pe).filter own).map pairOf := rfl
 
-theorem peGet_isSome_iff {d : Db} {l t : Int} : (peGet d l t).isSome = true ↔ (l, t) ∈ (absM d).pairs := by
-  unfold peGet
+theorem own_iff {c : Int × Int × Ent} : own c = true ↔ c.2.2.uuid = 0 := by simp [own]
+
+/-- On entries of the own database, "is the entry (t, own)" is "has track id t". -/
+theorem ent_beq_own {v : Ent} (t : Int) (hu : v.uuid = 0) : (v == (⟨t, 0⟩ : Ent)) = (v.track == t) := by
+  cases v with
+  | mk a b =>
+    simp only at hu
+    subst hu
+    by_cases h : a = t
+    · subst h; simp
+    · have h1 : (a == t) = false := by simpa using h
+      have h2 : ((⟨a, 0⟩ : Ent) == ⟨t, 0⟩) = false := by
+        apply beq_false_of_ne
+        intro e; exact h (by injection e)
+      rw [h1, h2]
+
+/-- Filtering the rows by a condition that, on own entries, only depends on (list, track). -/
+theorem pairs_filter (cs : List (Int × Int × Ent)) (q : Int × Int × Ent → Bool) (q' : Int × Int → Bool)
+    (hq : ∀ c ∈ cs, own c = true → q c = q' (pairOf c)) :
+    ((cs.filter q).filter own).map pairOf = ((cs.filter own).map pairOf).filter q' := by
+  rw [List.filter_map, List.filter_filter, List.filter_filter]
+  congr 1
+  apply List.filter_congr
+  intro c hc
+  by_cases ho : own c = true
+  · simp [ho, hq c hc ho, Function.comp]
+  · have : own c = false := by simpa using ho
+    simp [this]
+
+theorem peFind_isSome_iff {d : Db} {l t : Int} : (peFind d l t 0).isSome = true ↔ (l, t) ∈ (absM d).pairs := by
   rw [absM_pairs]
   constructor
   · intro h
-    cases hg : (d.pe.filter (fun r => r.key == l && r.val.track == t)).getLast? with
+    cases hg : peFind d l t 0 with
     | none => rw [hg] at h; simp at h
     | some e =>
-      obtain ⟨h1, h2, h3⟩ := lookup_core hg
-      exact List.mem_map.mpr ⟨core e, h1, by simp [pairOf, core, h2, h3]⟩
+      obtain ⟨h1, _, h3, h4⟩ := lookup_core hg
+      refine List.mem_map.mpr ⟨core e, List.mem_filter.mpr ⟨h1, by simp [own, core, h4]⟩, ?_⟩
+      simp [pairOf, core, h3, h4]
   · intro h
     obtain ⟨c, hc, e⟩ := List.mem_map.mp h
-    cases hg : (d.pe.filter (fun r => r.key == l && r.val.track == t)).getLast? with
+    obtain ⟨hc1, hc2⟩ := List.mem_filter.mp hc
+    cases hg : peFind d l t 0 with
     | some e' => rfl
     | none =>
       exfalso
       simp only [pairOf, Prod.mk.injEq] at e
-      exact lookup_none hg c hc e
+      exact lookup_none hg c hc1 ⟨e.1, ent_eq.mpr ⟨e.2, own_iff.mp hc2⟩⟩
 
-theorem peGet_none_iff {d : Db} {l t : Int} : peGet d l t = none ↔ (l, t) ∉ (absM d).pairs := by
-  rw [← peGet_isSome_iff]
-  cases peGet d l t <;> simp
+theorem peFind_none_iff {d : Db} {l t : Int} : peFind d l t 0 = none ↔ (l, t) ∉ (absM d).pairs := by
+  rw [← peFind_isSome_iff]
+  cases peFind d l t 0 <;> simp
 
-/-- With only local entries, add_back's duplicate test for the local uuid coincides with get(list, track). -/
-theorem peFind_local {d : Db} (h : ∀ c ∈ cores d.pe, c.2.2.uuid = 0) (l t : Int) : peFind d l t 0 = peGet d l t := by
-  unfold peFind peGet
-  congr 1
-  apply List.filter_congr
-  intro r hr
-  have := h (core r) (mem_cores.mpr ⟨r, hr, rfl⟩)
-  simp only [core] at this
-  simp [this]
+/-! ### one step against Spec.Members -/
 
-/-! ### one step of the crate / track API against Spec.Members -/
-
-/-- What `step` does to the membership abstraction, operation by operation. -/
+/-- What `step` does to the membership abstraction. -/
 structure MStep (d : Db) (op : Op) : Prop where
-  judge : judgeM (absM d) d op (step d op).2 = some (absM (step d op).1)
+  judge : judgeM (absM d) (absF d) op (step d op).2 = some (absM (step d op).1)
   inv : MemInv (step d op).1
+  /-- through the crate API every new entry carries the library's own uuid -/
+  own_kept : apiOp op = true → (∀ c ∈ cores d.pe, c.2.2.uuid = 0) → ∀ c ∈ cores (step d op).1.pe, c.2.2.uuid = 0
 
-theorem judgeM_throw_nil {d : Db} {op : Op} {e : Exn} (h : step d op = (d, .throw e)) (hops : membersOps d op (.throw e) = []) :
-    judgeM (absM d) d op (step d op).2 = some (absM (step d op).1) := by
+theorem judgeM_throw_nil {d : Db} {op : Op} {e : Exn} (h : step d op = (d, .throw e))
+    (hops : membersOps (absF d) op (.throw e) = []) :
+    judgeM (absM d) (absF d) op (step d op).2 = some (absM (step d op).1) := by
   rw [h]; simp [judgeM, outcome, hops]
 
 theorem absM_congr_pl {d d' : Db} (h1 : ids d'.pl = ids d.pl) (h2 : d'.pe = d.pe) (h3 : d'.tracks = d.tracks) : absM d' = absM d := by
@@ -190,9 +102,18 @@ theorem absM_congr_pl {d d' : Db} (h1 : ids d'.pl = ids d.pl) (h2 : d'.pe = d.pe
 
 theorem MemInv.congr {d d' : Db} (h : MemInv d) (h1 : ids d'.pl = ids d.pl) (h2 : d'.pe = d.pe) (h3 : d'.tracks = d.tracks)
     (h4 : d'.trSeq = d.trSeq) : MemInv d' := by
-  refine ⟨by rw [h2]; exact h.pairs, ?_, by rw [h3]; exact h.tracks_nodup, by rw [h3, h4]; exact h.tracks_seq, by rw [h4]; exact h.trSeq0,
-    by rw [h2]; exact h.own⟩
+  refine ⟨?_, by rw [h3]; exact h.tracks_nodup, by rw [h3, h4]; exact h.tracks_seq, by rw [h4]; exact h.trSeq0⟩
   rw [h2, h1, h3]; exact h.live
+
+/-- A change that only filters the entity rows keeps `live` and "all own". -/
+theorem live_of_filter {d : Db} (hM : MemInv d) {pe' : Table Ent} {q : Int × Int × Ent → Bool}
+    (h : cores pe' = (cores d.pe).filter q) :
+    ∀ c ∈ cores pe', c.2.2.uuid = 0 → c.2.1 ∈ ids d.pl ∧ c.2.2.track ∈ d.tracks := by
+  intro c hc; rw [h] at hc; exact hM.live c (List.mem_filter.mp hc).1
+
+theorem own_of_filter {pe pe' : Table Ent} {q : Int × Int × Ent → Bool} (h : cores pe' = (cores pe).filter q)
+    (ho : ∀ c ∈ cores pe, c.2.2.uuid = 0) : ∀ c ∈ cores pe', c.2.2.uuid = 0 := by
+  intro c hc; rw [h] at hc; exact ho c (List.mem_filter.mp hc).1
 
 /-! ### operations on the Playlist table alone -/
 
@@ -228,26 +149,28 @@ theorem step_pl_frame {d : Db} {op : Op} (h : isPlOnly op = true) : Frame d (ste
   cases op <;> simp only [isPlOnly] at h <;> simp only [step] <;> (repeat' split) <;>
     first | exact Frame.refl d | exact plAdd_frame d _ _ _ | exact plUpdate_frame d _ _ _ _ | simp at h
 
-theorem membersOps_create {d : Db} {op : Op} (hc : isCreate op = true) (n : Int) :
-    membersOps d op (.ok (some n)) = [.newCrate n] := by
+theorem membersOps_create {f : Forest.Forest} {op : Op} (hc : isCreate op = true) (n : Int) :
+    membersOps f op (.ok (some n)) = [.newCrate n] := by
   cases op <;> simp [isCreate] at hc <;> simp [membersOps, outcome, newIdOf]
 
-theorem membersOps_create_throw {d : Db} {op : Op} (hc : isPlOnly op = true) (e : Exn) :
-    membersOps d op (.throw e) = [] := by
+theorem membersOps_create_throw {f : Forest.Forest} {op : Op} (hc : isPlOnly op = true) (e : Exn) :
+    membersOps f op (.throw e) = [] := by
   cases op <;> simp [isPlOnly] at hc <;> simp [membersOps, outcome]
 
-theorem membersOps_noncreate {d : Db} {op : Op} (hp : isPlOnly op = true) (hc : isCreate op = false) (res : Res Out) :
-    membersOps d op res = [] := by
+theorem membersOps_noncreate {f : Forest.Forest} {op : Op} (hp : isPlOnly op = true) (hc : isCreate op = false) (res : Res Out) :
+    membersOps f op res = [] := by
   cases op <;> simp [isPlOnly] at hp <;> simp [isCreate] at hc <;> simp [membersOps]
 
-theorem absM_of {d d' : Db} (hf : Frame d d') : absM d' = ⟨ids d'.pl, d.tracks, (cores d.pe).map pairOf⟩ := by
+theorem absM_of {d d' : Db} (hf : Frame d d') : absM d' = ⟨ids d'.pl, d.tracks, ((cores d.pe).filter own).map pairOf⟩ := by
   simp [absM, hf.1, hf.2.2.1]
 
 theorem mstep_plOnly {d : Db} (hM : MemInv d) (hP : PlInv d) {op : Op} (h : isPlOnly op = true) : MStep d op := by
   have hfr := step_pl_frame (d := d) h
+  have hown : apiOp op = true → (∀ c ∈ cores d.pe, c.2.2.uuid = 0) → ∀ c ∈ cores (step d op).1.pe, c.2.2.uuid = 0 := by
+    intro _ ho; rw [hfr.1]; exact ho
   cases fstep hP.wf op with
   | throws e hs _ =>
-    exact ⟨judgeM_throw_nil hs (membersOps_create_throw h e), by rw [hs]; exact hM⟩
+    exact ⟨judgeM_throw_nil hs (membersOps_create_throw h e), by rw [hs]; exact hM, hown⟩
   | okF out fop h2 hf hacc hnew hseq =>
     have hids := Forest.step_accept_ids_eq fop _ hacc
     rw [absF_ids, absF_ids] at hids
@@ -259,18 +182,17 @@ theorem mstep_plOnly {d : Db} (hM : MemInv d) (hP : PlInv d) {op : Op} (h : isPl
       have hids' : ids (step d op).1.pl = ids d.pl ++ [d.plSeq + 1] := by
         rw [hc] at hcr
         cases fop <;> simp [Forest.Op.isCreate] at hcr <;> simpa [newIdOf] using hids
-      refine ⟨?_, ?_⟩
+      refine ⟨?_, ?_, hown⟩
       · rw [h2]
         simp only [judgeM, outcome, membersOps_create hc, List.foldlM_cons, List.foldlM_nil, judgeM1, Members.step,
           Members.Verdict.next]
         rw [absM_of hfr, hids']
         rfl
-      · refine ⟨by rw [hfr.1]; exact hM.pairs, ?_, by rw [hfr.2.2.1]; exact hM.tracks_nodup,
-          by rw [hfr.2.2.1, hfr.2.2.2]; exact hM.tracks_seq, by rw [hfr.2.2.2]; exact hM.trSeq0,
-          by rw [hfr.1]; exact hM.own⟩
+      · refine ⟨?_, by rw [hfr.2.2.1]; exact hM.tracks_nodup,
+          by rw [hfr.2.2.1, hfr.2.2.2]; exact hM.tracks_seq, by rw [hfr.2.2.2]; exact hM.trSeq0⟩
         rw [hfr.1, hfr.2.2.1, hids']
-        intro c hcm
-        exact ⟨List.mem_append_left _ (hM.live c hcm).1, (hM.live c hcm).2⟩
+        intro c hcm ho
+        exact ⟨List.mem_append_left _ (hM.live c hcm ho).1, (hM.live c hcm ho).2⟩
     | false =>
       have hids' : ids (step d op).1.pl = ids d.pl := by
         rw [hc] at hcr
@@ -278,7 +200,7 @@ theorem mstep_plOnly {d : Db} (hM : MemInv d) (hP : PlInv d) {op : Op} (h : isPl
         · exact hids
         · exact hids
         · cases op <;> simp [forestOp] at hf <;> simp [isPlOnly] at h
-      refine ⟨?_, hM.congr hids' hfr.1 hfr.2.2.1 hfr.2.2.2⟩
+      refine ⟨?_, hM.congr hids' hfr.1 hfr.2.2.1 hfr.2.2.2, hown⟩
       rw [h2]
       simp only [judgeM, outcome, membersOps_noncreate h hc, List.foldlM_nil]
       rw [absM_congr_pl hids' hfr.1 hfr.2.2.1]
@@ -286,28 +208,6 @@ theorem mstep_plOnly {d : Db} (hM : MemInv d) (hP : PlInv d) {op : Op} (h : isPl
   | okN out h2 hf _ _ => cases op <;> simp [forestOp] at hf <;> simp [isPlOnly] at h
 
 /-! ### remove_crate -/
-
-theorem cores_foldl_clearKey {t : Table Ent} (hn : (ids t).Nodup) (G : List Int) :
-    cores (G.foldl (fun t i => clearKey fires t i) t) = (cores t).filter (fun c => !G.contains c.2.1) := by
-  induction G generalizing t with
-  | nil =>
-    simp only [List.foldl_nil, List.contains_nil, Bool.not_false]
-    exact (List.filter_eq_self.mpr (fun _ _ => rfl)).symm
-  | cons g G ih =>
-    simp only [List.foldl_cons]
-    have h1 := cores_clearKey fires hn g
-    have hn1 : (ids (clearKey fires t g)).Nodup := by
-      rw [ids_eq_cores, h1]
-      rw [ids_eq_cores] at hn
-      exact List.Nodup.sublist (List.Sublist.map _ List.filter_sublist) hn
-    rw [ih hn1, h1, List.filter_filter]
-    apply List.filter_congr
-    intro c _
-    by_cases hcg : c.2.1 = g
-    · simp [hcg, List.contains_cons]
-    · have : (c.2.1 == g) = false := by simpa using hcg
-      rw [contains_cons_ne hcg]
-      simp [hcg]
 
 theorem mstep_removeCrate {S : Ord} {d : Db} (hM : MemInv d) (hC : ChInv S d) (c : Int) :
     MStep d (.removeCrate c) := by
@@ -323,48 +223,43 @@ theorem mstep_removeCrate {S : Ord} {d : Db} (hM : MemInv d) (hC : ChInv S d) (c
       rw [ids_eq_cores, hpl, ids_eq_cores, List.filter_map]
       rfl
     have htr : (plRemove d c).tracks = d.tracks := rfl
-    refine ⟨?_, ?_⟩
+    have hlive : (absF d).live c = true := by rw [← plExists_eq_live]; exact he
+    refine ⟨?_, ?_, fun _ ho => by rw [hstep]; exact own_of_filter hpe ho⟩
     · rw [hstep]
-      simp only [judgeM, outcome, membersOps, he, beq_self_eq_true, Bool.and_self, if_true, List.foldlM_cons,
-        List.foldlM_nil, judgeM1, Members.step, Members.Verdict.next]
-      simp only [absM, hids, hpe, htr, List.filter_map]
+      simp only [judgeM, outcome, membersOps, hlive, beq_self_eq_true, Bool.and_self, if_true, List.foldlM_cons,
+        List.foldlM_nil, judgeM1, Members.step, Members.Verdict.next, ← descendantIds_eq]
+      simp only [absM, hids, hpe, htr]
+      rw [pairs_filter (cores d.pe) (fun k => !(c :: descendantIds d.pl c).contains k.2.1)
+        (fun p => !(c :: descendantIds d.pl c).contains p.1) (fun _ _ _ => rfl)]
       rfl
     · rw [hstep]
-      refine ⟨by rw [hpe]; exact hM.pairs.filter _, ?_, hM.tracks_nodup, hM.tracks_seq, hM.trSeq0,
-        by rw [hpe]; exact fun k hk => hM.own k (List.mem_filter.mp hk).1⟩
-      intro k hk
+      refine ⟨?_, hM.tracks_nodup, hM.tracks_seq, hM.trSeq0⟩
+      intro k hk ho
       rw [hpe] at hk
       obtain ⟨hk1, hk2⟩ := List.mem_filter.mp hk
-      refine ⟨?_, (hM.live k hk1).2⟩
+      refine ⟨?_, (hM.live k hk1 ho).2⟩
       rw [hids]
-      exact List.mem_filter.mpr ⟨(hM.live k hk1).1, hk2⟩
+      exact List.mem_filter.mpr ⟨(hM.live k hk1 ho).1, hk2⟩
   · have he' : plExists d c = false := by simpa using he
     have hstep : step d (.removeCrate c) = (d, .throw .invalid_argument) := by simp [step, he']
-    exact ⟨judgeM_throw_nil hstep (by simp [membersOps, outcome]), by rw [hstep]; exact hM⟩
+    exact ⟨judgeM_throw_nil hstep (by simp [membersOps, outcome]), by rw [hstep]; exact hM, fun _ ho => by rw [hstep]; exact ho⟩
 
 /-! ### tracks and contents -/
-
-theorem mem_crates_iff {d : Db} {c : Int} : (absM d).crates.contains c = true ↔ c ∈ ids d.pl := by
-  simp [absM]
-
-theorem map_pairOf_filter (cs : List (Int × Int × Ent)) (q : Int × Int → Bool) :
-    (cs.filter (fun c => q (pairOf c))).map pairOf = (cs.map pairOf).filter q := by
-  rw [List.filter_map]; rfl
 
 theorem mstep_createTrack {d : Db} (hM : MemInv d) : MStep d .createTrack := by
   have hstep : step d .createTrack = ({ d with tracks := d.tracks ++ [d.trSeq + 1], trSeq := d.trSeq + 1 }, .ok (some (d.trSeq + 1))) := rfl
   have hfresh : d.trSeq + 1 ∉ d.tracks := by
     intro h; have := (hM.tracks_seq _ h).2; omega
-  refine ⟨?_, ?_⟩
+  refine ⟨?_, ?_, fun _ ho => by rw [hstep]; exact ho⟩
   · rw [hstep]
     have : (absM d).tracks.contains (d.trSeq + 1) = false := by simpa [absM] using hfresh
     simp only [judgeM, outcome, membersOps, newIdOf, List.foldlM_cons, List.foldlM_nil, judgeM1, this, Members.step,
       Members.Verdict.next]
     rfl
   · rw [hstep]
-    refine ⟨hM.pairs, ?_, ?_, ?_, by have := hM.trSeq0; show 0 ≤ d.trSeq + 1; omega, hM.own⟩
-    · intro c hc
-      exact ⟨(hM.live c hc).1, List.mem_append_left _ (hM.live c hc).2⟩
+    refine ⟨?_, ?_, ?_, by have := hM.trSeq0; show 0 ≤ d.trSeq + 1; omega⟩
+    · intro c hc ho
+      exact ⟨(hM.live c hc ho).1, List.mem_append_left _ (hM.live c hc ho).2⟩
     · refine List.nodup_append.mpr ⟨hM.tracks_nodup, by simp, ?_⟩
       intro a ha b hb
       simp only [List.mem_singleton] at hb
@@ -377,129 +272,118 @@ theorem mstep_createTrack {d : Db} (hM : MemInv d) : MStep d .createTrack := by
       · have := hM.tracks_seq t ht; omega
       · have := hM.trSeq0; omega
 
-theorem mstep_removeTrack {d : Db} (hM : MemInv d) (t : Int) : MStep d (.removeTrack t) := by
+theorem mstep_removeTrack {S : Ord} {d : Db} (hM : MemInv d) (hC : ChInv S d) (t : Int) : MStep d (.removeTrack t) := by
   by_cases hc : t ∈ d.tracks
   · have hct : d.tracks.contains t = true := List.contains_iff_mem.mpr hc
     have hstep : step d (.removeTrack t) = ({ d with
-        pe := (ids d.pl).foldl (fun pe l =>
-          match (pe.filter (fun r => r.key == l && r.val.track == t)).getLast? with
-          | some e => deleteKeyed fires pe l e.id
-          | none => pe) d.pe,
-        tracks := d.tracks.filter (· != t) }, .ok none) := by
+        pe := (ids d.pl).foldl (rmTrackIn t) d.pe, tracks := d.tracks.filter (· != t) }, .ok none) := by
       show (if d.tracks.contains t then _ else _) = _
       rw [if_pos hct]
-      rfl
-    have hpe : cores (step d (.removeTrack t)).1.pe = (cores d.pe).filter (fun c => !(c.2.2.track == t)) := by
+    have hpe : cores (step d (.removeTrack t)).1.pe
+        = (cores d.pe).filter (fun c => !((ids d.pl).contains c.2.1 && c.2.2 == (⟨t, 0⟩ : Ent))) := by
       rw [hstep]
-      show cores ((ids d.pl).foldl _ d.pe) = _
-      rw [cores_foldl_removeTrack t (ids d.pl) d.pe hM.pairs]
-      apply List.filter_congr
-      intro c hcm
-      have : (ids d.pl).contains c.2.1 = true := List.contains_iff_mem.mpr (hM.live c hcm).1
-      rw [this, Bool.true_and]
-    refine ⟨?_, ?_⟩
+      exact cores_foldl_removeTrack t (ids d.pl) d.pe hC.pairs
+    have h3 : (step d (.removeTrack t)).1.tracks = d.tracks.filter (· != t) := by rw [hstep]
+    have h4 : (step d (.removeTrack t)).1.pl = d.pl := by rw [hstep]
+    have h5 : (step d (.removeTrack t)).1.trSeq = d.trSeq := by rw [hstep]
+    refine ⟨?_, ?_, fun _ ho => own_of_filter hpe ho⟩
     · have h2 : (step d (.removeTrack t)).2 = .ok none := by rw [hstep]
-      have h3 : (step d (.removeTrack t)).1.tracks = d.tracks.filter (· != t) := by rw [hstep]
-      have h4 : (step d (.removeTrack t)).1.pl = d.pl := by rw [hstep]
       have hct' : (absM d).tracks.contains t = true := hct
       rw [h2]
       simp only [judgeM, outcome, membersOps, List.foldlM_cons, List.foldlM_nil, judgeM1, Members.step, hct',
         Bool.not_true, Bool.false_eq_true, if_false, Members.Verdict.next]
       simp only [absM, hpe, h3, h4]
-      have := map_pairOf_filter (cores d.pe) (fun p => p.2 != t)
-      simp only [pairOf] at this
-      simp only [pairOf, bne, Option.some.injEq, Option.pure_def, Option.bind_eq_bind, Option.bind_some]
-      congr 1
-      exact this.symm ▸ rfl
-    · have h3 : (step d (.removeTrack t)).1.tracks = d.tracks.filter (· != t) := by rw [hstep]
-      have h4 : (step d (.removeTrack t)).1.pl = d.pl := by rw [hstep]
-      have h5 : (step d (.removeTrack t)).1.trSeq = d.trSeq := by rw [hstep]
-      refine ⟨by rw [hpe]; exact hM.pairs.filter _, ?_, ?_, ?_, by rw [h5]; exact hM.trSeq0,
-        by rw [hpe]; exact fun k hk => hM.own k (List.mem_filter.mp hk).1⟩
-      · intro c hcm
+      rw [pairs_filter (cores d.pe) _ (fun p => p.2 != t)]
+      · rfl
+      · intro c hcm ho
+        have hl : (ids d.pl).contains c.2.1 = true := List.contains_iff_mem.mpr (hM.live c hcm (own_iff.mp ho)).1
+        rw [hl, Bool.true_and, ent_beq_own t (own_iff.mp ho)]
+        rfl
+    · refine ⟨?_, ?_, ?_, by rw [h5]; exact hM.trSeq0⟩
+      · intro c hcm ho
         rw [hpe] at hcm
         obtain ⟨h1, h2⟩ := List.mem_filter.mp hcm
         rw [h4, h3]
-        refine ⟨(hM.live c h1).1, List.mem_filter.mpr ⟨(hM.live c h1).2, ?_⟩⟩
-        simpa using h2
+        obtain ⟨hl1, hl2⟩ := hM.live c h1 ho
+        refine ⟨hl1, List.mem_filter.mpr ⟨hl2, ?_⟩⟩
+        have hl : (ids d.pl).contains c.2.1 = true := List.contains_iff_mem.mpr hl1
+        rw [hl, Bool.true_and] at h2
+        have hne : c.2.2 ≠ (⟨t, 0⟩ : Ent) := by simpa using h2
+        have : c.2.2.track ≠ t := fun e => hne (ent_eq.mpr ⟨e, ho⟩)
+        simpa using this
       · rw [h3]; exact List.Nodup.sublist List.filter_sublist hM.tracks_nodup
       · rw [h3, h5]; intro x hx; exact hM.tracks_seq x (List.mem_filter.mp hx).1
   · have hstep : step d (.removeTrack t) = (d, .throw .invalid_argument) := by simp [step, hc]
     have hct' : (absM d).tracks.contains t = false := by simpa [absM] using hc
-    refine ⟨?_, by rw [hstep]; exact hM⟩
+    refine ⟨?_, by rw [hstep]; exact hM, fun _ ho => by rw [hstep]; exact ho⟩
     rw [hstep]
     have hnm : t ∉ (absM d).tracks := hc
     simp [judgeM, outcome, membersOps, judgeM1, Members.step, hct', hnm, Members.Verdict.next]
 
-theorem mstep_addTrack {S : Ord} {d : Db} (hM : MemInv d) (hC : ChInv S d) (c t : Int) : MStep d (.addTrack c t) := by
+theorem filter_own_append (cs : List (Int × Int × Ent)) (x : Int × Int × Ent) :
+    (cs ++ [x]).filter own = if own x then cs.filter own ++ [x] else cs.filter own := by
+  rw [List.filter_append]
+  by_cases h : own x = true
+  · simp [h]
+  · have : own x = false := by simpa using h
+    simp [this]
+
+/-- add_back of a new entry (either through crate::add_track, own uuid, or at table level). -/
+theorem memInv_addBack {d : Db} (hM : MemInv d) {l t u : Int}
+    (hlive : u = 0 → l ∈ ids d.pl ∧ t ∈ d.tracks) :
+    MemInv { d with pe := appendBack d.pe (d.peSeq + 1) l ⟨t, u⟩, peSeq := d.peSeq + 1 } := by
+  refine ⟨?_, hM.tracks_nodup, hM.tracks_seq, hM.trSeq0⟩
+  show ∀ k ∈ cores (appendBack d.pe (d.peSeq + 1) l ⟨t, u⟩), k.2.2.uuid = 0 → k.2.1 ∈ ids d.pl ∧ k.2.2.track ∈ d.tracks
+  rw [cores_appendBack]
+  intro k hk ho
+  simp only [List.mem_append, List.mem_singleton] at hk
+  rcases hk with hk | rfl
+  · exact hM.live k hk ho
+  · exact hlive ho
+
+theorem mstep_addTrack {d : Db} (hM : MemInv d) (c t : Int) : MStep d (.addTrack c t) := by
   by_cases he : plExists d c = true
   · by_cases ht : t ∈ d.tracks
     · have hstep0 : step d (.addTrack c t) = peAddBack d c t 0 false := by simp [step, he, ht]
-      have hfind : peFind d c t 0 = peGet d c t := peFind_local hM.own c t
       have hcm : c ∈ (absM d).crates := plExists_iff.mp he
       have htm : t ∈ (absM d).tracks := ht
-      cases hg : peGet d c t with
+      cases hg : peFind d c t 0 with
       | some e =>
-        have hstep : step d (.addTrack c t) = (d, .ok (some e.id)) := by rw [hstep0]; simp [peAddBack, hfind, hg]
-        have hp : (c, t) ∈ (absM d).pairs := peGet_isSome_iff.mp (by rw [hg]; rfl)
-        refine ⟨?_, by rw [hstep]; exact hM⟩
+        have hstep : step d (.addTrack c t) = (d, .ok (some e.id)) := by rw [hstep0]; simp [peAddBack, hg]
+        have hp : (c, t) ∈ (absM d).pairs := peFind_isSome_iff.mp (by rw [hg]; rfl)
+        refine ⟨?_, by rw [hstep]; exact hM, fun _ ho => by rw [hstep]; exact ho⟩
         rw [hstep]
         simp [judgeM, outcome, membersOps, judgeM1, Members.step, hcm, htm, hp, Members.Verdict.next]
       | none =>
         have hstep : step d (.addTrack c t) =
             ({ d with pe := appendBack d.pe (d.peSeq + 1) c ⟨t, 0⟩, peSeq := d.peSeq + 1 }, .ok (some (d.peSeq + 1))) := by
-          rw [hstep0]; simp [peAddBack, hfind, hg]
-        have hp : (c, t) ∉ (absM d).pairs := peGet_none_iff.mp hg
-        refine ⟨?_, ?_⟩
+          rw [hstep0]; simp [peAddBack, hg]
+        have hp : (c, t) ∉ (absM d).pairs := peFind_none_iff.mp hg
+        refine ⟨?_, ?_, ?_⟩
         · rw [hstep]
           simp [judgeM, outcome, membersOps, judgeM1, Members.step, hcm, htm, hp, Members.Verdict.next]
-          simp [absM, cores_appendBack, pairOf]
+          simp [absM, cores_appendBack, filter_own_append, own, pairOf]
         · rw [hstep]
-          have hfresh : d.peSeq + 1 ∉ (cores d.pe).map (·.1) := by
-            rw [← ids_eq_cores]; intro h; have := hC.peSeq _ h; omega
-          refine ⟨?_, ?_, hM.tracks_nodup, hM.tracks_seq, hM.trSeq0, ?_⟩
-          · show PairsOk (cores (appendBack d.pe (d.peSeq + 1) c ⟨t, 0⟩))
-            rw [cores_appendBack]
-            constructor
-            · rw [List.map_append]
-              refine List.nodup_append.mpr ⟨hM.pairs.ids_nodup, by simp, ?_⟩
-              intro a ha b hb
-              simp only [List.map_cons, List.map_nil, List.mem_singleton] at hb
-              subst hb
-              intro e; subst e; exact hfresh ha
-            · intro x hx y hy e1 e2
-              simp only [List.mem_append, List.mem_singleton] at hx hy
-              rcases hx with hx | rfl <;> rcases hy with hy | rfl
-              · exact hM.pairs.pair_unique x hx y hy e1 e2
-              · exfalso; apply hp; rw [absM_pairs]
-                exact List.mem_map.mpr ⟨x, hx, by simp only [pairOf]; simp only at e1 e2; rw [e1, e2]⟩
-              · exfalso; apply hp; rw [absM_pairs]
-                exact List.mem_map.mpr ⟨y, hy, by simp only [pairOf]; simp only at e1 e2; rw [← e1, ← e2]⟩
-              · rfl
-          · show ∀ k ∈ cores (appendBack d.pe (d.peSeq + 1) c ⟨t, 0⟩), k.2.1 ∈ ids d.pl ∧ k.2.2.track ∈ d.tracks
-            rw [cores_appendBack]
-            intro k hk
-            simp only [List.mem_append, List.mem_singleton] at hk
-            rcases hk with hk | rfl
-            · exact hM.live k hk
-            · exact ⟨plExists_iff.mp he, ht⟩
-          · show ∀ k ∈ cores (appendBack d.pe (d.peSeq + 1) c ⟨t, 0⟩), k.2.2.uuid = 0
-            rw [cores_appendBack]
-            intro k hk
-            simp only [List.mem_append, List.mem_singleton] at hk
-            rcases hk with hk | rfl
-            · exact hM.own k hk
-            · rfl
+          exact memInv_addBack hM (fun _ => ⟨plExists_iff.mp he, ht⟩)
+        · intro _ ho
+          rw [hstep]
+          show ∀ k ∈ cores (appendBack d.pe (d.peSeq + 1) c ⟨t, 0⟩), k.2.2.uuid = 0
+          rw [cores_appendBack]
+          intro k hk
+          simp only [List.mem_append, List.mem_singleton] at hk
+          rcases hk with hk | rfl
+          · exact ho k hk
+          · rfl
     · have hstep : step d (.addTrack c t) = (d, .throw (exn "track_deleted")) := by simp [step, he, ht]
       have hcm : c ∈ (absM d).crates := plExists_iff.mp he
       have htm : t ∉ (absM d).tracks := ht
-      refine ⟨?_, by rw [hstep]; exact hM⟩
+      refine ⟨?_, by rw [hstep]; exact hM, fun _ ho => by rw [hstep]; exact ho⟩
       rw [hstep]
       simp [judgeM, outcome, membersOps, judgeM1, Members.step, hcm, htm, Members.Verdict.next]
   · have he' : plExists d c = false := by simpa using he
     have hstep : step d (.addTrack c t) = (d, .throw (exn "crate_deleted")) := by simp [step, he']
     have hcm : c ∉ (absM d).crates := fun h => he (plExists_iff.mpr h)
-    refine ⟨?_, by rw [hstep]; exact hM⟩
+    refine ⟨?_, by rw [hstep]; exact hM, fun _ ho => by rw [hstep]; exact ho⟩
     rw [hstep]
     simp [judgeM, outcome, membersOps, judgeM1, Members.step, hcm, Members.Verdict.next]
 
@@ -507,37 +391,30 @@ theorem state_eq_of_pairs {s : Members.State} {p : List (Int × Int)} (h : p = s
     ({ s with pairs := p } : Members.State) = s := by
   subst h; rfl
 
-theorem mstep_removeTrackFrom {d : Db} (hM : MemInv d) (c t : Int) : MStep d (.removeTrackFrom c t) := by
-  cases hg : peGet d c t with
+theorem mstep_removeTrackFrom {S : Ord} {d : Db} (hM : MemInv d) (hC : ChInv S d) (c t : Int) :
+    MStep d (.removeTrackFrom c t) := by
+  cases hg : peFind d c t 0 with
   | some e =>
     have hstep : step d (.removeTrackFrom c t) = ({ d with pe := deleteKeyed fires d.pe c e.id }, .ok none) := by
       simp [step, hg]
-    have hcores := cores_delete_pair hM.pairs hg
-    obtain ⟨hce, hel, het⟩ := lookup_core hg
-    have hcm : c ∈ (absM d).crates := hel ▸ (hM.live _ hce).1
-    refine ⟨?_, ?_⟩
+    have hcores := cores_delete_pair hC.pairs (l := c) (t := t) (u := 0) hg
+    obtain ⟨hce, _, hel, hev⟩ := lookup_core hg
+    have hcm : c ∈ (absM d).crates := hel ▸ (hM.live _ hce (by simp [core, hev])).1
+    refine ⟨?_, ?_, fun _ ho => by rw [hstep]; exact own_of_filter hcores ho⟩
     · rw [hstep]
       simp [judgeM, outcome, membersOps, judgeM1, Members.step, hcm, Members.Verdict.next]
       simp only [absM, hcores]
       congr 1
-      have := map_pairOf_filter (cores d.pe) (fun p => !(p.1 == c && p.2 == t))
-      simp only [pairOf] at this
-      rw [show (List.filter (fun c_1 => !(c_1.2.1 == c && c_1.2.2.track == t)) (cores d.pe)).map pairOf = _ from this]
-      apply List.filter_congr
-      intro p _
-      cases p; rfl
+      rw [pairs_filter (cores d.pe) _ (fun p => p != (c, t))]
+      intro k hk ho
+      rw [ent_beq_own t (own_iff.mp ho)]
+      rfl
     · rw [hstep]
-      refine ⟨by show PairsOk (cores (deleteKeyed fires d.pe c e.id)); rw [hcores]; exact hM.pairs.filter _, ?_,
-        hM.tracks_nodup, hM.tracks_seq, hM.trSeq0,
-        by show ∀ k ∈ cores (deleteKeyed fires d.pe c e.id), _; rw [hcores]; exact fun k hk => hM.own k (List.mem_filter.mp hk).1⟩
-      show ∀ k ∈ cores (deleteKeyed fires d.pe c e.id), _
-      rw [hcores]
-      intro k hk
-      exact hM.live k (List.mem_filter.mp hk).1
+      exact ⟨live_of_filter hM hcores, hM.tracks_nodup, hM.tracks_seq, hM.trSeq0⟩
   | none =>
     have hstep : step d (.removeTrackFrom c t) = (d, .ok none) := by simp [step, hg]
-    have hp : (c, t) ∉ (absM d).pairs := peGet_none_iff.mp hg
-    refine ⟨?_, by rw [hstep]; exact hM⟩
+    have hp : (c, t) ∉ (absM d).pairs := peFind_none_iff.mp hg
+    refine ⟨?_, by rw [hstep]; exact hM, fun _ ho => by rw [hstep]; exact ho⟩
     rw [hstep]
     by_cases hcm : c ∈ (absM d).crates
     · simp [judgeM, outcome, membersOps, judgeM1, Members.step, hcm, Members.Verdict.next]
@@ -551,35 +428,66 @@ theorem mstep_removeTrackFrom {d : Db} (hM : MemInv d) (c t : Int) : MStep d (.r
 theorem mstep_clearTracks {S : Ord} {d : Db} (hM : MemInv d) (hC : ChInv S d) (c : Int) : MStep d (.clearTracks c) := by
   have hstep : step d (.clearTracks c) = ({ d with pe := clearKey fires d.pe c }, .ok none) := rfl
   have hcores := cores_clearKey fires hC.re.ids_nodup c
-  refine ⟨?_, ?_⟩
+  refine ⟨?_, ?_, fun _ ho => by rw [hstep]; exact own_of_filter hcores ho⟩
   · rw [hstep]
+    have hpf := pairs_filter (cores d.pe) (fun k => k.2.1 != c) (fun p => p.1 != c) (fun _ _ _ => rfl)
     by_cases hcm : c ∈ (absM d).crates
     · simp [judgeM, outcome, membersOps, judgeM1, Members.step, hcm, Members.Verdict.next]
       simp only [absM, hcores]
       congr 1
-      have := map_pairOf_filter (cores d.pe) (fun p => p.1 != c)
-      simp only [pairOf] at this
-      exact this.symm
+      exact hpf.symm
     · simp [judgeM, outcome, membersOps, judgeM1, Members.step, hcm, Members.Verdict.next]
       simp only [absM, hcores]
-      congr 2
+      congr 1
+      rw [hpf]
       symm
       apply List.filter_eq_self.mpr
-      intro k hk
-      simp only [bne_iff_ne, ne_eq]
+      intro p hp
+      obtain ⟨k, hk, rfl⟩ := List.mem_map.mp hp
+      obtain ⟨hk1, hk2⟩ := List.mem_filter.mp hk
+      simp only [bne_iff_ne, ne_eq, pairOf]
       intro e
-      exact hcm (e ▸ (hM.live k hk).1)
+      exact hcm (e ▸ (hM.live k hk1 (own_iff.mp hk2)).1)
   · rw [hstep]
-    refine ⟨by show PairsOk (cores (clearKey fires d.pe c)); rw [hcores]; exact hM.pairs.filter _, ?_,
-      hM.tracks_nodup, hM.tracks_seq, hM.trSeq0,
-      by show ∀ k ∈ cores (clearKey fires d.pe c), _; rw [hcores]; exact fun k hk => hM.own k (List.mem_filter.mp hk).1⟩
-    show ∀ k ∈ cores (clearKey fires d.pe c), _
-    rw [hcores]
-    intro k hk
-    exact hM.live k (List.mem_filter.mp hk).1
+    exact ⟨live_of_filter hM hcores, hM.tracks_nodup, hM.tracks_seq, hM.trSeq0⟩
 
-/-- Every operation of the crate / track API is accepted by the membership Spec and keeps `MemInv`. -/
-theorem mstep {S : Ord} {d : Db} (hM : MemInv d) (hP : PlInv d) (hC : ChInv S d) (op : Op) (hapi : apiOp op = true) :
+/-- Table level: an entry of ANOTHER database is added to some list — no membership of this library changes. -/
+theorem mstep_foreignAdd {d : Db} (hM : MemInv d) (l t u : Int) (f : Bool) (hu : u ≠ 0) :
+    MStep d (.peAddBack l t u f) := by
+  have hstep0 : step d (.peAddBack l t u f) = peAddBack d l t u f := rfl
+  refine ⟨?_, ?_, fun ha _ => by simp [apiOp] at ha⟩
+  · unfold peAddBack at hstep0
+    cases hg : peFind d l t u with
+    | some e =>
+      rw [hg] at hstep0
+      cases f with
+      | true => rw [hstep0]; simp [judgeM, outcome, membersOps]
+      | false =>
+        simp only [Bool.false_eq_true, if_false] at hstep0
+        rw [hstep0]; simp [judgeM, outcome, membersOps]
+    | none =>
+      rw [hg] at hstep0
+      simp only at hstep0
+      rw [hstep0]
+      have hno : own (d.peSeq + 1, l, (⟨t, u⟩ : Ent)) = false := by simp [own, hu]
+      simp [judgeM, outcome, membersOps]
+      simp [absM, cores_appendBack, filter_own_append, hno]
+  · unfold peAddBack at hstep0
+    cases hg : peFind d l t u with
+    | some e =>
+      rw [hg] at hstep0
+      cases f with
+      | true => rw [hstep0]; exact hM
+      | false => simp only [Bool.false_eq_true, if_false] at hstep0; rw [hstep0]; exact hM
+    | none =>
+      rw [hg] at hstep0
+      simp only at hstep0
+      rw [hstep0]
+      exact memInv_addBack hM (fun e => absurd e hu)
+
+/-- Every operation of the crate / track API (and every table-level addition of a foreign entry) is accepted by
+the membership Spec and keeps `MemInv`. -/
+theorem mstep {S : Ord} {d : Db} (hM : MemInv d) (hP : PlInv d) (hC : ChInv S d) (op : Op) (hm : memOp op = true) :
     MStep d op := by
   cases op with
   | createRoot n => exact mstep_plOnly hM hP rfl
@@ -590,15 +498,17 @@ theorem mstep {S : Ord} {d : Db} (hM : MemInv d) (hP : PlInv d) (hC : ChInv S d)
   | setParent c p => exact mstep_plOnly hM hP rfl
   | removeCrate c => exact mstep_removeCrate hM hC c
   | createTrack => exact mstep_createTrack hM
-  | removeTrack t => exact mstep_removeTrack hM t
-  | addTrack c t => exact mstep_addTrack hM hC c t
-  | removeTrackFrom c t => exact mstep_removeTrackFrom hM c t
+  | removeTrack t => exact mstep_removeTrack hM hC t
+  | addTrack c t => exact mstep_addTrack hM c t
+  | removeTrackFrom c t => exact mstep_removeTrackFrom hM hC c t
   | clearTracks c => exact mstep_clearTracks hM hC c
-  | peAddBack l t f => simp [apiOp] at hapi
-  | peRemove l e => simp [apiOp] at hapi
-  | peClear l => simp [apiOp] at hapi
+  | peAddBack l t u f =>
+    simp only [memOp, Bool.and_eq_true, decide_eq_true_eq] at hm
+    exact mstep_foreignAdd hM l t u f hm.1
+  | peRemove l e => simp [memOp] at hm
+  | peClear l => simp [memOp] at hm
 
-/-! ### all invariants together, over histories of the crate / track API -/
+/-! ### all invariants together -/
 
 structure Inv (S : Ord) (d : Db) : Prop where
   ch : ChInv S d
@@ -607,29 +517,55 @@ structure Inv (S : Ord) (d : Db) : Prop where
 
 theorem inv_empty : Inv Ord.empty Db.empty := ⟨chInv_empty, plInv_empty, memInv_empty⟩
 
-theorem okOp_of_apiOp {op : Op} (h : apiOp op = true) : okOp op = true := by
+theorem okOp_of_memOp {op : Op} (h : memOp op = true) : okOp op = true := by
+  cases op <;> simp [memOp] at h <;> simp [okOp, h]
+
+theorem memOp_of_apiOp {op : Op} (h : apiOp op = true) : memOp op = true := by
   cases op <;> simp [apiOp] at h <;> rfl
 
-theorem inv_step {S : Ord} {d : Db} (hI : Inv S d) (op : Op) (hapi : apiOp op = true) :
+theorem okOp_of_apiOp {op : Op} (h : apiOp op = true) : okOp op = true := okOp_of_memOp (memOp_of_apiOp h)
+
+theorem inv_step {S : Ord} {d : Db} (hI : Inv S d) (op : Op) (hm : memOp op = true) :
     Inv (ordStep S d op) (step d op).1 :=
-  ⟨chInv_step hI.ch op (okOp_of_apiOp hapi), plInv_step hI.pl op, (mstep hI.mem hI.pl hI.ch op hapi).inv⟩
+  ⟨chInv_step hI.ch op (okOp_of_memOp hm), plInv_step hI.pl op, (mstep hI.mem hI.pl hI.ch op hm).inv⟩
 
-theorem inv_run {S : Ord} {d : Db} (hI : Inv S d) (ops : List Op) (hapi : ops.all apiOp = true) :
-    Inv (ordRun d S ops) (run d ops) := by
+/-- The three Spec judges (forest, memberships, ordered lists), driven by the Model's answers only, never object
+along a history, and the states they track are the abstractions of the Model state. -/
+theorem inv_run {S : Ord} {d : Db} (hI : Inv S d) (ops : List Op) (hm : ops.all memOp = true) :
+    ∃ S', specRunO d (absF d) S ops = some (absF (run d ops), S') ∧ Inv S' (run d ops) ∧
+      specRunM d (absF d) (absM d) ops = some (absF (run d ops), absM (run d ops)) := by
   induction ops generalizing S d with
-  | nil => exact hI
+  | nil => exact ⟨S, rfl, hI, rfl⟩
   | cons op ops ih =>
-    simp only [List.all_cons, Bool.and_eq_true] at hapi
-    exact ih (inv_step hI op hapi.1) hapi.2
+    simp only [List.all_cons, Bool.and_eq_true] at hm
+    obtain ⟨S', h1, h2, h3⟩ := ih (inv_step hI op hm.1) hm.2
+    refine ⟨S', ?_, h2, ?_⟩
+    · simp only [specRunO, run]
+      rw [judgeF_of_fstep hI.pl (fstep hI.pl.wf op)]
+      exact h1
+    · simp only [specRunM, run]
+      rw [judgeF_of_fstep hI.pl (fstep hI.pl.wf op), (mstep hI.mem hI.pl hI.ch op hm.1).judge]
+      exact h3
 
-theorem specRunM_eq {S : Ord} {d : Db} (hI : Inv S d) (ops : List Op) (hapi : ops.all apiOp = true) :
-    specRunM d (absM d) ops = some (absM (run d ops)) := by
+/-- Through the crate / track API alone every entry carries the library's own uuid. -/
+def AllOwn (d : Db) : Prop := ∀ c ∈ cores d.pe, c.2.2.uuid = 0
+
+theorem allOwn_empty : AllOwn Db.empty := by simp [AllOwn, Db.empty, cores]
+
+theorem allOwn_step {S : Ord} {d : Db} (hI : Inv S d) (ho : AllOwn d) (op : Op) (ha : apiOp op = true) :
+    AllOwn (step d op).1 :=
+  (mstep hI.mem hI.pl hI.ch op (memOp_of_apiOp ha)).own_kept ha ho
+
+theorem all_memOp_of_apiOp {ops : List Op} (h : ops.all apiOp = true) : ops.all memOp = true := by
+  rw [List.all_eq_true] at h ⊢
+  exact fun op hop => memOp_of_apiOp (h op hop)
+
+theorem inv_allOwn_run {S : Ord} {d : Db} (hI : Inv S d) (ho : AllOwn d) (ops : List Op) (ha : ops.all apiOp = true) :
+    ∃ S', Inv S' (run d ops) ∧ AllOwn (run d ops) := by
   induction ops generalizing S d with
-  | nil => rfl
+  | nil => exact ⟨S, hI, ho⟩
   | cons op ops ih =>
-    simp only [List.all_cons, Bool.and_eq_true] at hapi
-    simp only [specRunM, run]
-    rw [(mstep hI.mem hI.pl hI.ch op hapi.1).judge]
-    exact ih (inv_step hI op hapi.1) hapi.2
+    simp only [List.all_cons, Bool.and_eq_true] at ha
+    exact ih (inv_step hI op (memOp_of_apiOp ha.1)) (allOwn_step hI ho op ha.1) ha.2
 
 end EngineModel.Db.V2
